@@ -20,7 +20,7 @@ ASSUMPTIONS = [
     "planting includes editing the public children list directly (the planted unknown element then has no parent link, or a stale one)",
     "removed subtree roots = nodes no longer reachable from the root that no other unreachable node still lists",
 ]
-REQUIRED = ["trees_with_repeated_id_strings", "typed_table_prunes", "prunes_at_inner_node", "prunes", "prunes_strict", "prunes_removing", "offender_below_parent_with_own_error", "second_prunes", "model_agreements",
+REQUIRED = ["parents_with_many_offenders", "trees_with_repeated_id_strings", "typed_table_prunes", "prunes_at_inner_node", "prunes", "prunes_strict", "prunes_removing", "offender_below_parent_with_own_error", "second_prunes", "model_agreements",
             "trees_with_metadata"]
 EXHAUSTIVE = {"quick": False, "thorough": False}
 
@@ -397,6 +397,23 @@ def run(ctx, params):
         host = rng.choice(treegen.all_nodes(t))
         host.add_child(Node(name, content=rng.choice([None, "x"])), rng.randint(0, len(host.children)))
         ctx.case(judge, ctx, t, j % 2 == 0, ["every-known-name:" + name])
+        emlkit.discard(t)
+    # one parent with a hundred and more offenders (some with subtrees): every one of them goes, with everything below it
+    for count in (9, 10, 11, 99, 100, 101, 150, 257):
+        t = gen.minimal_tree("dataset")
+        host = t if count % 2 else (t.children[0] if t.children else t)
+        for k in range(count):
+            c = Node(rng.choice(["spatialRaster", "verifUnknown", "span"]), content=None)
+            if k % 3 == 0:
+                g = Node("entityName", content=f"e{k}")
+                c.add_child(g)
+                g.add_child(Node("verifDeep"))
+            host.add_child(c, rng.randint(0, len(host.children)))
+        for strict in (False, True):
+            t2 = snapshot.from_plain(Node, snapshot.to_plain(t))
+            ctx.case(judge, ctx, t2, strict, [f"{count} offenders under one parent"])
+            ctx.count("parents_with_many_offenders")
+            emlkit.discard(t2)
         emlkit.discard(t)
     # every child name a rule allows although no element of that name is known (with and without a subtree), both modes
     for label, t in anytrees.allowed_unknown_cases(gen):
